@@ -98,6 +98,10 @@ func (c c06case) String() string {
 // One long-lived Buffer per (memory threshold, retry depth, verbose) serves every case with that configuration,
 // one after the other: whatever an exchange leaves behind in the middleware (a reused object, a cached value)
 // meets the next case's oracle. The handler behind it is swapped per case.
+type brokenReader struct{}
+
+func (brokenReader) Read([]byte) (int, error) { return 0, io.ErrUnexpectedEOF }
+
 type c06instance struct {
 	b   *buffer.Buffer
 	cur http.Handler
@@ -197,6 +201,21 @@ func runC06(c c06case, rep *lib.Report) {
 	if err != nil {
 		rep.DistrustF("buffer.New: %v", err)
 		return
+	}
+	if c06pos.index%7 == 3 {
+		// before this case the same instance sees an upload that breaks midway (the client goes away after half of
+		// the declared body): whatever that leaves behind must not reach the case that follows
+		in.cur = http.HandlerFunc(func(w http.ResponseWriter, r *http.Request) {
+			io.Copy(io.Discard, r.Body)
+			w.WriteHeader(200)
+		})
+		br, _ := lib.ParseRequest(lib.RawRequest("POST", "/broken-upload", nil, []byte("0123456789"), 0))
+		br.Body = io.NopCloser(io.MultiReader(strings.NewReader("01234"), brokenReader{}))
+		if r0 := lib.Serve(in.b, br); r0.Panic != nil {
+			rep.Violate("C06:panic:broken-upload", fmt.Sprintf("an upload that breaks midway made the buffer panic: %v", r0.Panic), map[string]any{"engine": "enum", "part": "c06", "case": c.String(), "verbose": verboseRun,
+				"tier": c06pos.tier, "shard": fmt.Sprintf("%d/%d", c06pos.shard.I, c06pos.shard.N), "index": c06pos.index})
+		}
+		rep.Count("uploads_broken_midway")
 	}
 	in.cur = h
 	b := in.b
@@ -306,7 +325,7 @@ func RunC06(tier string, sh lib.Shard, rep *lib.Report) {
 	cases := c06cases(tier)
 	rep.Bounds["cases"] = len(cases)
 	rep.Rule = "full product memory threshold {8,64,default 1MiB} x body length {0,1,mem-1,mem,mem+1,3mem, ~1MiB(+)} x framing {Content-Length, chunked 1/7/whole, unknown length without chunking (HTTP/2 stream)} x method x header set x retry depth {1,2,3} x per-failed-attempt script (bytes consumed {0,half,all} x 8 request mutations); request parsed by http.ReadRequest from raw bytes, real buffer.ServeHTTP on long-lived Buffer instances (one per threshold x retry depth, serving all its cases in sequence); every invocation's method/URL/headers/ContentLength/TransferEncoding/body compared with the client's original; every fifth case again with Verbose(true) and a formatting logger; non-trivial = cases with at least one retry or a spilled body"
-	rep.Require("requests_spilled_to_disk", "cases_with_retries", "cases_rerun_verbose")
+	rep.Require("requests_spilled_to_disk", "cases_with_retries", "cases_rerun_verbose", "uploads_broken_midway")
 	for i, c := range cases {
 		if !sh.Mine(i) {
 			continue
